@@ -17,14 +17,49 @@ use falcon::memory::backing;
 use falcon::memory::paged::Memory;
 use falcon::memory::MemoryPermissions;
 use falcon::RC;
-use fv::{build, guard, guard_plain, proj, Out, Outcome, Rng};
+use fv::{build, guard, guard_plain, proj, Outcome, Rng};
 use num_bigint::BigUint;
 use serde_json::{json, Value};
 use std::collections::BTreeMap;
-use std::io::BufRead;
+use std::io::{BufRead, Write};
 
 /// 1024-aligned bases; offsets stay below 2^21.  Base 1 / 2 put offset 4096 on 2^32 / 2^63.
 const BASES: [u64; 3] = [0, (1u64 << 32) - 4096, (1u64 << 63) - 4096];
+
+/// ndjson writer that can be flushed (fv::Out cannot): a session is flushed as a whole, and in
+/// replay mode every event, so that what a dying recorder (stack overflow, abort) leaves behind
+/// is a well-formed prefix.
+struct Out {
+    w: std::io::BufWriter<std::fs::File>,
+    each: bool,
+}
+
+impl Out {
+    fn create(path: &str, each: bool) -> Out {
+        if let Some(parent) = std::path::Path::new(path).parent() {
+            let _ = std::fs::create_dir_all(parent);
+        }
+        Out { w: std::io::BufWriter::new(std::fs::File::create(path).expect("create output")), each }
+    }
+    fn emit(&mut self, v: &Value) {
+        serde_json::to_writer(&mut self.w, v).unwrap();
+        self.w.write_all(b"\n").unwrap();
+        if self.each {
+            self.w.flush().unwrap();
+        }
+    }
+    fn flush(&mut self) {
+        self.w.flush().unwrap();
+    }
+}
+
+/// Drive one session; its inputs are parked in `<out>.cur` while it runs, so that the orchestrator
+/// can tell which session killed the recorder (the file is removed when the recorder finishes).
+fn run_session(inputs: &[Value], out: &mut Out, cur: &str) {
+    std::fs::write(cur, serde_json::to_vec(inputs).unwrap()).unwrap();
+    drive_session(inputs, out);
+    out.flush();
+}
 
 fn abs(a: &Value) -> u64 {
     BASES[a[0].as_u64().unwrap() as usize] + a[1].as_u64().unwrap()
@@ -453,7 +488,9 @@ fn read_ndjson(path: &str) -> Vec<Value> {
 fn main() {
     fv::quiet_panics();
     let mode = fv::arg_str("mode", "random");
-    let mut out = Out::create(&fv::arg_str("out", "/dev/stdout"));
+    let path = fv::arg_str("out", "/dev/stdout");
+    let cur_path = format!("{}.cur", path);
+    let mut out = Out::create(&path, mode == "replay");
     match mode.as_str() {
         "random" => {
             let n = fv::arg_u64("n", 100);
@@ -461,7 +498,7 @@ fn main() {
             let mut rng = Rng::new(fv::seed_from_env() ^ 0xC08 ^ (fv::arg_u64("stream", 0) << 24));
             for i in 0..n {
                 let s = random_session(&mut rng, i, max_ops);
-                drive_session(&s, &mut out);
+                run_session(&s, &mut out, &cur_path);
             }
         }
         "gen" => {
@@ -470,7 +507,7 @@ fn main() {
                 let bases: Vec<u64> = if placements == "all" { vec![0, 1, 2] } else { vec![i as u64 % 3] };
                 for base in bases {
                     for expr in [false, true] {
-                        drive_session(&gen_session(hist, base, expr), &mut out);
+                        run_session(&gen_session(hist, base, expr), &mut out, &cur_path);
                     }
                 }
             }
@@ -481,16 +518,17 @@ fn main() {
             let mut cur: Vec<Value> = Vec::new();
             for e in evs {
                 if e["ev"] == "begin" && !cur.is_empty() {
-                    drive_session(&cur, &mut out);
+                    run_session(&cur, &mut out, &cur_path);
                     cur.clear();
                 }
                 cur.push(e);
             }
             if !cur.is_empty() {
-                drive_session(&cur, &mut out);
+                run_session(&cur, &mut out, &cur_path);
             }
         }
         other => panic!("unknown mode {}", other),
     }
-    out.finish();
+    out.flush();
+    let _ = std::fs::remove_file(&cur_path);
 }
